@@ -375,7 +375,9 @@ package ctlog
 //@ func ctlog.(*Log).addPreChain$1 props C09
 //@   ensures [C09] add-pre-chain-refuses-final-certificates: ret == nil <==> le.IsPrecert
 
-//@ func ctlog.(*Log).addChainOrPreChain props C02 C09
+// The wait function addLeafToPool hands back blocks until the entry's round is over; it touches no log state.
+//@ assume func ctlog.(*Log).addLeafToPool#ret0 params ctx
+//@ func ctlog.(*Log).addChainOrPreChain props C02 C09 C17
 //@   requires l != nil && l.c != nil && l.currentPool != nil && !held(&l.poolMu) && !held(&l.issuersMu) && !held(&l.rootsMu)
 //@   requires forall k int :: has(l.currentPool.lowPriority, k) ==> (0 <= k && k < len(l.currentPool.pendingLeaves))
 //@   init gValidateCalls == 0 && gAddLeafCalls == 0
@@ -394,6 +396,9 @@ package ctlog
 //@   call ctlog.digitallySign requires [C02,C09] sct-signs-sequenced-leaf: c_k == l.c.Key && c_msg == mtlOf(*seq)
 //@   call sunlight.MarshalExtensions requires [C02,C09] sct-extension-is-leaf-index: c_e.LeafIndex == seq.LeafIndex
 //@   call json.Marshal requires [C02,C09] sct-fields: (seq.Timestamp >= 0 ==> cast(c_v, "*ct.AddChainResponse").Timestamp == seq.Timestamp) && cast(c_v, "*ct.AddChainResponse").ID == bytes(l.logID) && cast(c_v, "*ct.AddChainResponse").Signature == sctSignature && cast(c_v, "*ct.AddChainResponse").SCTVersion == 0
+//@   call ctlog.(*Log).addLeafToPool#ret0 bind waitErr = ret1
+//@   returns? [C17] evicted-or-full-pool-is-answered-with-retry-later: (waitErr == errEvicted || waitErr == errPoolFull) ==> (ret1 == 503 && ret2 == waitErr)
+//@   returns? [C17] sequencing-failure-is-reported: waitErr != nil ==> (ret2 != nil && ret1 != 200)
 //@   returns [C09] ok-iff-no-error: (ret1 == 200) <==> (ret2 == nil)
 //@   returns [C09] invalid-chain-is-client-error-without-leaf: (gValidateCalls == 1 && gValidateFailed) ==> ret1 == 400 && ret2 != nil && gAddLeafCalls == 0
 //@   returns [C09] type-mismatch-is-client-error-without-leaf: (gValidateCalls == 1 && !gValidateFailed && gAddLeafCalls == 0 && ret2 != nil) ==> (ret1 == 400 || ret1 == 500)
